@@ -45,7 +45,8 @@ fn main() {
             if a == "--buildpack" {
                 if let Some(p) = args.get(i + 1) {
                     let base = std::path::Path::new(p);
-                    if base.is_dir() {
+                    // only absolute paths (what on-the-fly packaging hands over); a relative reference is just logged
+                    if base.is_absolute() && base.is_dir() {
                         let mut entries = Vec::new();
                         fn walk2(base: &std::path::Path, d: &std::path::Path, out: &mut Vec<String>) {
                             if let Ok(rd) = std::fs::read_dir(d) {
